@@ -1,35 +1,749 @@
-(* Cost and allocation of safe decoders.
-
-   STATUS: the linear bounds are NOT proved; they are stated here in full and measured on every run
-   (checks/c11.py records max cost/(len+1) of the IR interpreter and max allocation/(len+64) of the Go
-   decoders over the adversarial stream).
-
-     Theorem cost_linear (not proved) :
-       forall ps, all_safe ps = true -> paid ps = true ->
-       forall f body, lookup ps f = Some body ->
-       forall rd w fuel c a, 0 <= wlen w <= wcap w -> Z.of_nat fuel > wlen w ->
-       forall ok st, run rd ps fuel f w c a = FRet ok st ->
-         scost st - c  <= 2 * size ps * wlen w + size ps /\
-         salloc st - a <= 2 * size ps * wlen w + size ps.
-   where `size ps` is the largest block_size of a program and `paid` is the discipline that every call
-   data[lo:hi] / copy of n bytes is followed, before the next call, copy or loop iteration, by
-   data = data[e:] with e >= hi (resp. e >= n): sub-calls then run on disjoint sub-windows.  Without that
-   discipline safe_prog alone does not give a linear bound (a decoder could decode the same sub-window
-   twice at every nesting level).
-
-   What IS proved about time (SafeSound.safe_prog_sound): with fuel = len + 1 the interpreter never
-   reports OutOfFuel; fuel bounds the iterations of every loop and the nesting depth of calls, i.e.
-   every loop of a safe decoder runs at most len(data)+1 guard evaluations on its window and every
-   call receives a strictly shorter window.  The two lemmas below are the part of the cost argument
-   that is proved: counters never decrease along an execution step that returns normally. *)
-From Coq Require Import ZArith List Bool Lia.
-From LLRP Require Import DecIR.IR DecIR.Sem DecIR.Safe.
+(* Linear cost and allocation bounds for decoders accepted by Safe.all_safe and Linear.linear_prog:
+     cost  of a run <= coef ps * len + size ps       (coef ps = 2 * (size ps + 1))
+     alloc of a run <= coef ps * len + size ps
+   for every input, window and fuel > len, where size ps is the largest block_size of a program.
+   Amortised argument: for each counter a ghost q = "half-bytes of the current window's prefix already
+   charged"; potential = D * (2 * len - q) (+ D when a covering reslice has happened in the current loop
+   body), D = size ps + 1.  Every statement satisfies  counter' + potential' <= counter + potential + its size;
+   a loop iteration that falls through has potential' + D <= potential, which pays its statements, so a loop
+   costs nothing beyond the bytes it consumes; a call on data[lo:hi] (lo >= 1) is paid by the 2*hi-1
+   half-bytes it charges, which the following reslice (>= hi) removes from the window. *)
+From Coq Require Import ZArith List Bool Lia ZifyBool.
+From LLRP Require Import DecIR.IR DecIR.Sem DecIR.Safe DecIR.SafeLemmas DecIR.SafeSound DecIR.Linear.
+Import ListNotations.
 Open Scope Z_scope.
 
-Definition size (ps : programs) : Z := fold_right (fun fp m => Z.max (block_size (snd fp)) m) 0 ps.
+(* ------------------------------------------------------------------ syntactic helpers *)
+Lemma expr_eqb_sound : forall a b, expr_eqb a b = true -> a = b.
+Proof.
+  induction a; destruct b; simpl; intros H; try discriminate; try reflexivity;
+    repeat match goal with
+           | H : _ && _ = true |- _ => apply andb_true_iff in H; destruct H
+           end;
+    try (f_equal; try lia; auto; fail).
+Qed.
 
-Lemma tick_cost : forall st, scost (tick st) = scost st + 1.
-Proof. reflexivity. Qed.
+Fixpoint seval (h : expr) (en : env) : Z :=
+  match h with
+  | EConst z => z
+  | EVar x => get en x
+  | EAdd a b => seval a en + seval b en
+  | EMul a b => seval a en * seval b en
+  | _ => 0
+  end.
 
-Lemma tick_window : forall st, sw (tick st) = sw st /\ senv (tick st) = senv st.
-Proof. intros; split; reflexivity. Qed.
+Lemma seval_eval : forall rd h w en, stable h = true -> eval rd h w en = Some (seval h en).
+Proof.
+  induction h; simpl; intros w en S; try discriminate; try reflexivity;
+    apply andb_true_iff in S; destruct S as [S1 S2]; rewrite IHh1, IHh2 by assumption; reflexivity.
+Qed.
+
+Lemma seval_set_other : forall h en y v, mentions y h = false -> seval h (set en y v) = seval h en.
+Proof.
+  induction h; simpl; intros en y v M; try reflexivity.
+  - rewrite get_set_neq; [reflexivity|]. intro E. subst. rewrite Z.eqb_refl in M. discriminate.
+  - apply orb_false_iff in M. destruct M. rewrite IHh1, IHh2 by assumption. reflexivity.
+  - apply orb_false_iff in M. destruct M. rewrite IHh1, IHh2 by assumption. reflexivity.
+Qed.
+
+Lemma covers_sound : forall rd e h w en v, covers e h = true -> eval rd e w en = Some v -> seval h en <= v.
+Proof.
+  intros rd e h w en v C E. unfold covers in C. apply andb_true_iff in C. destruct C as [S C].
+  apply orb_true_iff in C. destruct C as [C|C]; [apply orb_true_iff in C; destruct C as [C|C]|].
+  - apply expr_eqb_sound in C. subst. rewrite (seval_eval rd h w en S) in E. inversion E. lia.
+  - destruct e; try discriminate. destruct e2; try discriminate.
+    apply andb_true_iff in C. destruct C as [C1 C2]. apply expr_eqb_sound in C1. subst.
+    cbn [eval] in E. rewrite (seval_eval rd h w en S) in E. inversion E. lia.
+  - destruct e; try discriminate. destruct h; try discriminate. cbn in E. inversion E. simpl. lia.
+Qed.
+
+(* ------------------------------------------------------------------ ghost state *)
+Definition pmeans (p : paid) (en : env) (q : Z) : Prop :=
+  match p with
+  | P0 => q = 0
+  | PExpr h => q <= Z.max 0 (2 * seval h en - 1)
+  | PAll => True
+  end.
+
+Definition ginv (L : lstate) (w : window) (en : env) (qc qa : Z) : Prop :=
+  0 <= qc <= 2 * wlen w /\ 0 <= qa <= 2 * wlen w /\ pmeans (lpc L) en qc /\ pmeans (lpa L) en qa.
+
+Lemma pmeans_pexpr : forall h en q, q <= Z.max 0 (2 * seval h en - 1) -> pmeans (pexpr h) en q.
+Proof. intros h en q H. unfold pexpr. destruct (stable h); simpl; auto. Qed.
+
+Lemma pmeans_join_l : forall a b en q, pmeans a en q -> pmeans (pjoin a b) en q.
+Proof.
+  intros [|h|] [|g|] en q H; simpl in *; auto; try lia.
+  destruct (expr_eqb h g); simpl; auto.
+Qed.
+Lemma pmeans_join_r : forall a b en q, pmeans b en q -> pmeans (pjoin a b) en q.
+Proof.
+  intros [|h|] [|g|] en q H; simpl in *; auto; try lia.
+  destruct (expr_eqb h g) eqn:E; simpl; auto. apply expr_eqb_sound in E. subst. exact H.
+Qed.
+
+Lemma pmeans_kill : forall p en x v q, pmeans p en q -> pmeans (kill_paid x p) (set en x v) q.
+Proof.
+  intros [|h|] en x v q H; simpl in *; auto.
+  destruct (mentions x h) eqn:M; simpl; auto. rewrite seval_set_other by assumption. exact H.
+Qed.
+
+(* ------------------------------------------------------------------ potential and the per-statement claim *)
+Definition pot (D : Z) (L : lstate) (w : window) (q : Z) : Z := D * (2 * wlen w - q) + D * Z.b2z (lcred L).
+
+Section Amortised.
+  Variable rd : Z -> Z.
+  Variable ps : programs.
+  Variable callf : Z -> window -> Z -> Z -> flow.
+  Variable K : Z.
+  Variable lfuel : nat.
+  Variable S D : Z.
+  Hypothesis HS : 0 <= S.
+  Hypothesis HD : D = S + 1.
+  (* callees: safe and within the bound, on every strictly shorter window *)
+  Hypothesis Hcall : forall f w c a, known_fn ps f = true -> wfw w -> wlen w < K ->
+    match callf f w c a with
+    | FRet _ st' => scost st' <= c + 2 * D * wlen w + S /\ salloc st' <= a + 2 * D * wlen w + S
+    | _ => False
+    end.
+  Hypothesis Hfuel : K < Z.of_nat lfuel.
+
+  Lemma Hcall_ok : forall f w c a, known_fn ps f = true -> wfw w -> wlen w < K -> ok_ret (callf f w c a).
+  Proof.
+    intros f w c a H1 H2 H3. pose proof (Hcall f w c a H1 H2 H3) as H.
+    destruct (callf f w c a); simpl; auto.
+  Qed.
+
+  (* c0 / a0: the totals the run may reach *)
+  Definition cpost (c0 a0 : Z) (oL : option lstate) (r : flow) : Prop :=
+    match r with
+    | FNormal st' => exists L' qc' qa', oL = Some L' /\ ginv L' (sw st') (senv st') qc' qa' /\
+                       scost st' + pot D L' (sw st') qc' <= c0 /\ salloc st' + pot D L' (sw st') qa' <= a0
+    | FBreak _ st' => scost st' + 2 * D * wlen (sw st') <= c0 /\ salloc st' + 2 * D * wlen (sw st') <= a0
+    | FRet _ st' => scost st' <= c0 /\ salloc st' <= a0
+    | FPanic _ | FOutOfFuel _ => True
+    end.
+
+  Lemma cpost_mono : forall c0 a0 c1 a1 oL r, cpost c0 a0 oL r -> c0 <= c1 -> a0 <= a1 -> cpost c1 a1 oL r.
+  Proof.
+    intros c0 a0 c1 a1 oL [st|l st|ok st|s|s] P H1 H2; simpl in *; auto; try lia.
+    destruct P as (L' & qc & qa & E & G & P1 & P2). exists L', qc, qa. repeat (split; [assumption|]). split; lia.
+  Qed.
+
+  Lemma pot_join_l : forall a b w q, 0 <= D -> pot D (mkL (pjoin (lpc a) (lpc b)) (pjoin (lpa a) (lpa b)) (lcred a && lcred b)) w q <= pot D a w q.
+  Proof. intros a b w q H. unfold pot; cbn [lcred]. destruct (lcred a), (lcred b); simpl; nia. Qed.
+  Lemma pot_join_r : forall a b w q, 0 <= D -> pot D (mkL (pjoin (lpc a) (lpc b)) (pjoin (lpa a) (lpa b)) (lcred a && lcred b)) w q <= pot D b w q.
+  Proof. intros a b w q H. unfold pot; cbn [lcred]. destruct (lcred a), (lcred b); simpl; nia. Qed.
+
+  Lemma D_pos : 1 <= D.
+  Proof. lia. Qed.
+
+  Lemma cpost_join_l : forall c0 a0 o1 o2 r, cpost c0 a0 o1 r -> cpost c0 a0 (ljoin o1 o2) r.
+  Proof.
+    intros c0 a0 o1 o2 [st|l st|ok st|s|s] P; simpl in *; auto.
+    destruct P as (L' & qc & qa & E & G & P1 & P2). subst o1.
+    destruct o2 as [b|]; [|exists L', qc, qa; auto].
+    eexists _, qc, qa. split; [reflexivity|]. pose proof D_pos.
+    destruct G as (G1 & G2 & G3 & G4).
+    split; [|split].
+    - unfold ginv; cbn [lpc lpa]. repeat split; try lia; auto using pmeans_join_l.
+    - pose proof (pot_join_l L' b (sw st) qc ltac:(lia)). lia.
+    - pose proof (pot_join_l L' b (sw st) qa ltac:(lia)). lia.
+  Qed.
+  Lemma cpost_join_r : forall c0 a0 o1 o2 r, cpost c0 a0 o2 r -> cpost c0 a0 (ljoin o1 o2) r.
+  Proof.
+    intros c0 a0 o1 o2 [st|l st|ok st|s|s] P; simpl in *; auto.
+    destruct P as (L' & qc & qa & E & G & P1 & P2). subst o2.
+    destruct o1 as [a|]; [|exists L', qc, qa; auto].
+    eexists _, qc, qa. split; [reflexivity|]. pose proof D_pos.
+    destruct G as (G1 & G2 & G3 & G4).
+    split; [|split].
+    - unfold ginv; cbn [lpc lpa]. repeat split; try lia; auto using pmeans_join_r.
+    - pose proof (pot_join_r a L' (sw st) qc ltac:(lia)). lia.
+    - pose proof (pot_join_r a L' (sw st) qa ltac:(lia)). lia.
+  Qed.
+
+  Lemma sizes_nonneg :
+    (forall s, 1 <= stmt_size s) /\ (forall b, 0 <= block_size b) /\ (forall cs, 0 <= cases_size cs).
+  Proof.
+    apply ir_mutind; intros; cbn [stmt_size block_size cases_size]; lia.
+  Qed.
+
+  Lemma scaled_eval : forall n k w en v, eval rd n w en = Some v -> eval rd (scaled n k) w en = Some (v * k).
+  Proof.
+    intros n k w en v E. unfold scaled. destruct (Z.eqb_spec k 1).
+    - subst. rewrite E. f_equal. lia.
+    - cbn [eval]. rewrite E. reflexivity.
+  Qed.
+
+  Lemma le_len_sound : forall len0 A w en e v, sat len0 A w en -> le_len A e = true -> eval rd e w en = Some v -> v <= wlen w.
+  Proof.
+    intros len0 A w en e v St H E. unfold le_len in H. apply orb_true_iff in H. destruct H as [H|H].
+    - pose proof (prove_le_len_sound rd _ _ _ _ _ _ _ St H E). lia.
+    - destruct e; try discriminate. destruct e1; try discriminate. destruct e2; try discriminate.
+      cbn in E. inversion E. lia.
+  Qed.
+
+  Lemma reslice_ghost : forall p e w en q v, pmeans p en q -> 0 <= q -> eval rd e w en = Some v -> 0 <= v ->
+    pmeans (after_reslice p e) en (Z.max 0 (q - 2 * v)) /\ (covered p e = true -> q <= Z.max 0 (2 * v - 1)).
+  Proof.
+    intros p e w en q v P Hq E Hv. unfold after_reslice.
+    assert (C : covered p e = true -> q <= Z.max 0 (2 * v - 1)).
+    { intros C. destruct p as [|h|]; cbn [pmeans covered] in *; try discriminate; [lia|].
+      pose proof (covers_sound rd _ _ _ _ _ C E). lia. }
+    split; [|exact C]. destruct (covered p e); cbn [pmeans]; auto. specialize (C eq_refl). lia.
+  Qed.
+
+  (* unfolding equations of the checker *)
+  Lemma lchk_SIf : forall cur site c t e A L,
+    lchk ps cur (SIf site c t e) A L =
+    (let r1 := lchkb ps cur t (assume c true A) L in
+     let r2 := lchkb ps cur e (assume c false A) L in
+     (ljoin (fst r1) (fst r2), snd r1 && snd r2)).
+  Proof. reflexivity. Qed.
+  Lemma lchk_SSwitch : forall cur site e cs d A L,
+    lchk ps cur (SSwitch site e cs d) A L =
+    (let r1 := lchkc ps cur e cs A L in
+     let r2 := lchkb ps cur d A L in
+     (ljoin (fst r1) (fst r2), snd r1 && snd r2)).
+  Proof. reflexivity. Qed.
+  Lemma lchk_SLoop : forall cur site l c body A L,
+    lchk ps cur (SLoop site l c body) A L =
+    (let r := lchkb ps (Some l) body (assume c true top) L0 in
+     (Some (mkL P0 P0 (lcred L)),
+      match cur with None => true | Some _ => false end
+      && isP0 (lpc L) && isP0 (lpa L) && snd r
+      && match fst r with None => true | Some Lb => isP0 (lpc Lb) && isP0 (lpa Lb) && lcred Lb end)).
+  Proof. reflexivity. Qed.
+  Lemma lchkb_BCons : forall cur s r A L,
+    lchkb ps cur (BCons s r) A L =
+    (let r1 := lchk ps cur s A L in
+     match fst (chk ps cur s A), fst r1 with
+     | Some A1, Some L1 => let r2 := lchkb ps cur r A1 L1 in (fst r2, snd r1 && snd r2)
+     | _, _ => (None, snd r1)
+     end).
+  Proof. reflexivity. Qed.
+  Lemma lchkc_CCons : forall cur e v b r A L,
+    lchkc ps cur e (CCons v b r) A L =
+    (let r1 := lchkb ps cur b (learn_case A e v) L in
+     let r2 := lchkc ps cur e r A L in
+     (ljoin (fst r1) (fst r2), snd r1 && snd r2)).
+  Proof. reflexivity. Qed.
+
+  Lemma isP0_means : forall p en q, isP0 p = true -> pmeans p en q -> q = 0.
+  Proof. intros [|h|] en q H P; simpl in *; try discriminate; exact P. Qed.
+
+  Ltac ginv_split := unfold ginv; cbn [lpc lpa]; split; [|split; [|split]].
+
+  Definition stmt_claim (s : stmt) : Prop :=
+    forall cur A L st len0 oA oL qc qa,
+      chk ps cur s A = (oA, []) -> lchk ps cur s A L = (oL, true) ->
+      sat len0 A (sw st) (senv st) -> wlen (sw st) <= K -> ginv L (sw st) (senv st) qc qa -> stmt_size s <= S ->
+      cpost (scost st + pot D L (sw st) qc + stmt_size s) (salloc st + pot D L (sw st) qa + stmt_size s) oL
+            (ex rd callf lfuel s (tick st)).
+
+  Lemma claim_SLet : forall site x e, stmt_claim (SLet site x e).
+  Proof.
+    intros site x e cur A L st len0 oA oL qc qa H HL St HK G HSz.
+    cbn [lchk] in HL. injection HL as HoL. subst oL.
+    cbn [ex tick sw senv]. destruct (eval rd e (sw st) (senv st)) as [v|]; [|exact I].
+    cbn [cpost set_var tick sw senv scost salloc]. destruct G as (G1 & G2 & G3 & G4).
+    eexists _, qc, qa. split; [reflexivity|]. split; [|split].
+    - ginv_split; auto using pmeans_kill.
+    - unfold pot; cbn [lcred stmt_size]. lia.
+    - unfold pot; cbn [lcred stmt_size]. lia.
+  Qed.
+
+  Lemma claim_SEval : forall site e, stmt_claim (SEval site e).
+  Proof.
+    intros site e cur A L st len0 oA oL qc qa H HL St HK G HSz.
+    cbn [lchk] in HL. injection HL as HoL. subst oL.
+    cbn [ex tick sw senv]. destruct (eval rd e (sw st) (senv st)) as [v|]; [|exact I].
+    cbn [cpost tick sw senv scost salloc]. eexists _, qc, qa. split; [reflexivity|]. split; [exact G|].
+    cbn [stmt_size]. split; lia.
+  Qed.
+
+  Lemma claim_SAllocObj : stmt_claim SAllocObj.
+  Proof.
+    intros cur A L st len0 oA oL qc qa H HL St HK G HSz.
+    cbn [lchk] in HL. injection HL as HoL. subst oL.
+    cbn [ex tick add_alloc cpost sw senv scost salloc]. eexists _, qc, qa. split; [reflexivity|]. split; [exact G|].
+    cbn [stmt_size]. split; lia.
+  Qed.
+
+  Lemma claim_SRet : stmt_claim SRetErr /\ stmt_claim SRetOk.
+  Proof.
+    pose proof D_pos as HDp.
+    split; intros cur A L st len0 oA oL qc qa H HL St HK G HSz; cbn [ex tick cpost scost salloc stmt_size];
+      destruct G as (G1 & G2 & _); unfold pot; destruct (lcred L); cbn [Z.b2z]; split; nia.
+  Qed.
+
+  Lemma claim_SBreak : forall l, stmt_claim (SBreak l).
+  Proof.
+    intros l cur A L st len0 oA oL qc qa H HL St HK G HSz. pose proof D_pos as HDp.
+    cbn [lchk] in HL. injection HL as HoL Hok. apply andb_true_iff in Hok. destruct Hok as [O1 O2].
+    destruct G as (G1 & G2 & G3 & G4).
+    pose proof (isP0_means _ _ _ O1 G3) as Z1. pose proof (isP0_means _ _ _ O2 G4) as Z2. subst qc qa.
+    cbn [ex tick cpost sw scost salloc stmt_size]. unfold pot. destruct (lcred L); cbn [Z.b2z]; split; nia.
+  Qed.
+
+  Lemma claim_SReslice : forall site e, stmt_claim (SReslice site e).
+  Proof.
+    intros site e cur A L st len0 oA oL qc qa H HL St HK G HSz. pose proof D_pos as HDp.
+    cbn [ex tick sw senv]. destruct (eval rd e (sw st) (senv st)) as [v|] eqn:Ev; [|exact I].
+    destruct ((0 <=? v) && (v <=? wlen (sw st))) eqn:C; [|exact I].
+    destruct G as (G1 & G2 & G3 & G4).
+    destruct (reslice_ghost _ e (sw st) _ _ v G3 ltac:(lia) Ev ltac:(lia)) as [Rc Cc].
+    destruct (reslice_ghost _ e (sw st) _ _ v G4 ltac:(lia) Ev ltac:(lia)) as [Ra Ca].
+    cbn [lchk] in HL.
+    cbn [cpost set_win tick sw senv scost salloc wlen stmt_size].
+    destruct (covered (lpc L) e && covered (lpa L) e) eqn:CV; injection HL as HoL; subst oL.
+    - apply andb_true_iff in CV. destruct CV as [CV1 CV2]. specialize (Cc CV1). specialize (Ca CV2).
+      exists (mkL P0 P0 (lcred L || ge1 A e)), (Z.max 0 (qc - 2 * v)), (Z.max 0 (qa - 2 * v)).
+      split; [reflexivity|].
+      assert (V1 : ge1 A e = true -> 1 <= v) by (intros G1'; exact (ge1_sound rd _ _ _ _ _ _ St G1' Ev)).
+      split; [|split].
+      + ginv_split; cbn [wlen pmeans]; lia.
+      + unfold pot; cbn [lcred wlen]. destruct (lcred L), (ge1 A e); cbn [orb Z.b2z]; try specialize (V1 eq_refl); nia.
+      + unfold pot; cbn [lcred wlen]. destruct (lcred L), (ge1 A e); cbn [orb Z.b2z]; try specialize (V1 eq_refl); nia.
+    - exists (mkL (after_reslice (lpc L) e) (after_reslice (lpa L) e) (lcred L)), (Z.max 0 (qc - 2 * v)), (Z.max 0 (qa - 2 * v)).
+      split; [reflexivity|]. split; [|split].
+      + ginv_split; cbn [wlen]; try lia; assumption.
+      + unfold pot; cbn [lcred wlen]. nia.
+      + unfold pot; cbn [lcred wlen]. nia.
+  Qed.
+
+  Lemma pexpr_val : forall rd' h w en v q, eval rd' h w en = Some v -> q <= Z.max 0 (2 * v - 1) -> pmeans (pexpr h) en q.
+  Proof.
+    intros rd' h w en v q E H. unfold pexpr. destruct (stable h) eqn:St; cbn [pmeans]; auto.
+    rewrite (seval_eval rd' h w en St) in E. inversion E. lia.
+  Qed.
+
+  Lemma claim_SAlloc : forall site n esz, stmt_claim (SAlloc site n esz).
+  Proof.
+    intros site n esz cur A L st len0 oA oL qc qa H HL St HK G HSz. pose proof D_pos as HDp.
+    cbn [lchk] in HL. injection HL as HoL Hok. subst oL.
+    apply andb_true_iff in Hok. destruct Hok as [Hok O3]. apply andb_true_iff in Hok. destruct Hok as [O1 O2].
+    cbn [ex tick sw senv]. destruct (eval rd n (sw st) (senv st)) as [v|] eqn:Ev; [|exact I].
+    destruct (0 <=? v) eqn:C; [|exact I].
+    destruct G as (G1 & G2 & G3 & G4). pose proof (isP0_means _ _ _ O1 G4) as Z2. subst qa.
+    pose proof (scaled_eval n esz _ _ _ Ev) as Es.
+    pose proof (le_len_sound _ _ _ _ _ _ St O3 Es) as Hle.
+    cbn [cpost add_alloc tick sw senv scost salloc stmt_size].
+    exists (mkL (lpc L) (pexpr (scaled n esz)) (lcred L)), qc, (Z.max 0 (2 * (v * esz) - 1)).
+    split; [reflexivity|]. split; [|split].
+    - ginv_split; try lia; try assumption. eapply pexpr_val; [exact Es|lia].
+    - unfold pot; cbn [lcred]. lia.
+    - unfold pot; cbn [lcred]. assert (0 <= v * esz) by nia. nia.
+  Qed.
+
+  Lemma claim_SCopy : forall site n at_, stmt_claim (SCopy site n at_).
+  Proof.
+    intros site n at_ cur A L st len0 oA oL qc qa H HL St HK G HSz. pose proof D_pos as HDp.
+    cbn [lchk] in HL. injection HL as HoL Hok. subst oL.
+    apply andb_true_iff in Hok. destruct Hok as [O1 O2].
+    cbn [ex tick sw senv]. destruct (eval rd n (sw st) (senv st)) as [v|] eqn:Ev; [|exact I].
+    destruct (eval rd at_ (sw st) (senv st)) as [a|] eqn:Ea; [|exact I].
+    destruct ((0 <=? a) && (a <=? wlen (sw st))) eqn:C; [|exact I].
+    destruct G as (G1 & G2 & G3 & G4). pose proof (isP0_means _ _ _ O1 G3) as Z1. subst qc.
+    pose proof (nonneg_sound rd _ _ _ _ _ _ St O2 Ev) as Hv.
+    cbn [cpost add_cost tick sw senv scost salloc stmt_size].
+    set (m := Z.min (Z.max v 0) (wlen (sw st) - a)).
+    exists (mkL (pexpr (EAdd n at_)) (lpa L) (lcred L)), (Z.max 0 (2 * (a + m) - 1)), qa.
+    split; [reflexivity|]. split; [|split].
+    - ginv_split; try lia; try assumption.
+      eapply (pexpr_val rd (EAdd n at_) (sw st) (senv st) (v + a)); [cbn [eval]; rewrite Ev, Ea; reflexivity|lia].
+    - unfold pot; cbn [lcred]. assert (0 <= m) by lia. nia.
+    - unfold pot; cbn [lcred]. lia.
+  Qed.
+
+  Lemma claim_SCopyLoop : forall site n at_ step k, stmt_claim (SCopyLoop site n at_ step k).
+  Proof.
+    intros site n at_ step k cur A L st len0 oA oL qc qa H HL St HK G HSz. pose proof D_pos as HDp.
+    cbn [lchk] in HL. injection HL as HoL Hok. subst oL.
+    apply andb_true_iff in Hok. destruct Hok as [Hok O3]. apply andb_true_iff in Hok. destruct Hok as [O1 O2].
+    cbn [ex tick sw senv]. destruct (eval rd n (sw st) (senv st)) as [v|] eqn:Ev; [|exact I].
+    destruct G as (G1 & G2 & G3 & G4). pose proof (isP0_means _ _ _ O1 G3) as Z1. subst qc.
+    pose proof (scaled_eval n step _ _ _ Ev) as Es.
+    assert (Eh : eval rd (EAdd (scaled n step) (EConst at_)) (sw st) (senv st) = Some (v * step + at_))
+      by (cbn [eval]; rewrite Es; reflexivity).
+    destruct (v <=? 0) eqn:Cv.
+    - cbn [cpost tick sw senv scost salloc stmt_size].
+      eexists _, 0, qa. split; [reflexivity|]. split; [|split].
+      + ginv_split; try lia; try assumption. eapply pexpr_val; [exact Eh|lia].
+      + unfold pot; cbn [lcred]. lia.
+      + unfold pot; cbn [lcred]. lia.
+    - destruct ((0 <=? at_) && (0 <=? step) && (at_ + (v - 1) * step + k <=? wlen (sw st))) eqn:C; [|exact I].
+      cbn [cpost add_cost tick sw senv scost salloc stmt_size].
+      assert (X1 : 0 <= (v - 1) * step) by nia.
+      assert (X2 : v - 1 <= (v - 1) * step) by nia.
+      assert (X3 : (v - 1) * step + step = v * step) by ring.
+      remember ((v - 1) * step) as Y eqn:EY.
+      eexists _, (2 * (at_ + Y + k) - 1), qa. split; [reflexivity|]. split; [|split].
+      + ginv_split; try lia; try assumption. eapply pexpr_val; [exact Eh|]. lia.
+      + unfold pot; cbn [lcred]. assert (v <= at_ + Y + k) by lia. nia.
+      + unfold pot; cbn [lcred]. lia.
+  Qed.
+
+  Lemma claim_SStr : forall site lo hi, stmt_claim (SStr site lo hi).
+  Proof.
+    intros site lo hi cur A L st len0 oA oL qc qa H HL St HK G HSz. pose proof D_pos as HDp.
+    cbn [lchk] in HL. injection HL as HoL Hok. subst oL.
+    apply andb_true_iff in Hok. destruct Hok as [Hok O3]. apply andb_true_iff in Hok. destruct Hok as [O1 O2].
+    cbn [ex tick sw senv]. destruct (eval rd lo (sw st) (senv st)) as [a|] eqn:Ea; [|exact I].
+    destruct (eval rd hi (sw st) (senv st)) as [b|] eqn:Eb; [|exact I].
+    destruct ((0 <=? a) && (a <=? b) && (b <=? wcap (sw st))) eqn:C; [|exact I].
+    destruct G as (G1 & G2 & G3 & G4).
+    pose proof (isP0_means _ _ _ O1 G3) as Z1. pose proof (isP0_means _ _ _ O2 G4) as Z2. subst qc qa.
+    pose proof (prove_le_len_sound rd _ _ _ _ _ _ _ St O3 Eb) as Hb.
+    cbn [cpost add_cost add_alloc tick sw senv scost salloc stmt_size].
+    eexists _, (Z.max 0 (2 * b - 1)), (Z.max 0 (2 * b - 1)). split; [reflexivity|]. split; [|split].
+    - ginv_split; try lia; eapply pexpr_val; try exact Eb; lia.
+    - unfold pot; cbn [lcred]. nia.
+    - unfold pot; cbn [lcred]. nia.
+  Qed.
+
+  Lemma claim_SCall : forall site f lo hi, stmt_claim (SCall site f lo hi).
+  Proof.
+    intros site f lo hi cur A L st len0 oA oL qc qa H HL St HK G HSz. pose proof D_pos as HDp.
+    cbn [lchk] in HL. injection HL as HoL Hok. subst oL.
+    apply andb_true_iff in Hok. destruct Hok as [Hok O4]. apply andb_true_iff in Hok. destruct Hok as [Hok O3].
+    apply andb_true_iff in Hok. destruct Hok as [O1 O2].
+    (* the callee is known: from the safety check *)
+    cbn [chk] in H. injection H as HoA HF.
+    apply app_eq_nil in HF. destruct HF as [_ HF]. apply app_eq_nil in HF. destruct HF as [_ HF].
+    apply app_eq_nil in HF. destruct HF as [Fk _]. apply req_nil in Fk.
+    cbn [ex tick sw senv scost salloc]. destruct (eval rd lo (sw st) (senv st)) as [a|] eqn:Ea; [|exact I].
+    pose proof (ge1_sound rd _ _ _ _ _ _ St O3 Ea) as Ha.
+    destruct G as (G1 & G2 & G3 & G4).
+    pose proof (isP0_means _ _ _ O1 G3) as Z1. pose proof (isP0_means _ _ _ O2 G4) as Z2. subst qc qa.
+    pose proof St as (Hw & _). unfold wfw in Hw.
+    assert (TAIL : forall b p, a <= b <= wlen (sw st) -> pmeans p (senv st) (2 * b - 1) ->
+      cpost (scost st + pot D L (sw st) 0 + stmt_size (SCall site f lo hi)) (salloc st + pot D L (sw st) 0 + stmt_size (SCall site f lo hi))
+        (Some (mkL p p (lcred L)))
+        (match callf f (mkW (woff (sw st) + a) (b - a) (wcap (sw st) - a)) (scost st + 1) (salloc st) with
+         | FRet true st' => FNormal (set_counters (tick st) st')
+         | FRet false st' => FRet false (set_counters (tick st) st')
+         | FPanic s => FPanic s
+         | FOutOfFuel s => FOutOfFuel s
+         | _ => FPanic site
+         end)).
+    { intros b p Hb Pb.
+      pose proof (Hcall f (mkW (woff (sw st) + a) (b - a) (wcap (sw st) - a)) (scost st + 1) (salloc st) Fk) as R.
+      unfold wfw in R; cbn [wlen wcap] in R. specialize (R ltac:(lia) ltac:(lia)).
+      destruct (callf f _ (scost st + 1) (salloc st)) as [st'|l' st'|ok st'|x|x]; try contradiction; try exact I.
+      destruct R as [R1 R2]. cbn [stmt_size].
+      destruct ok; cbn [cpost set_counters tick sw senv scost salloc].
+      - exists (mkL p p (lcred L)), (2 * b - 1), (2 * b - 1). split; [reflexivity|]. split; [|split].
+        + ginv_split; try lia; assumption.
+        + unfold pot; cbn [lcred]. nia.
+        + unfold pot; cbn [lcred]. nia.
+      - unfold pot. destruct (lcred L); cbn [Z.b2z]; split; nia. }
+    destruct hi as [h|].
+    - destruct (eval rd h (sw st) (senv st)) as [b|] eqn:Eb; [|exact I].
+      destruct ((0 <=? a) && (a <=? b) && (b <=? wcap (sw st))) eqn:C; [|exact I].
+      pose proof (prove_le_len_sound rd _ _ _ _ _ _ _ St O4 Eb).
+      apply TAIL; [lia|]. eapply pexpr_val; [exact Eb|lia].
+    - destruct ((0 <=? a) && (a <=? wlen (sw st))) eqn:C; [|exact I].
+      apply TAIL; [lia|exact I].
+  Qed.
+
+  (* the loop: every iteration that falls through has restored q = 0 and earned D, which pays for it *)
+  Lemma loop_cost : forall guard body site l (Sb C0 A0 : Z) (cred : bool),
+    0 <= Sb -> Sb + 1 <= D ->
+    (forall st, wlen (sw st) <= K -> wfw (sw st) -> guard st = Some true ->
+       match body st with
+       | FNormal st' => wfw (sw st') /\ wlen (sw st') <= wlen (sw st) /\
+                        scost st' + 2 * D * wlen (sw st') + D <= scost st + 1 + 2 * D * wlen (sw st) + Sb /\
+                        salloc st' + 2 * D * wlen (sw st') + D <= salloc st + 2 * D * wlen (sw st) + Sb
+       | FBreak _ st' => wfw (sw st') /\
+                         scost st' + 2 * D * wlen (sw st') <= scost st + 1 + 2 * D * wlen (sw st) + Sb /\
+                         salloc st' + 2 * D * wlen (sw st') <= salloc st + 2 * D * wlen (sw st) + Sb
+       | FRet _ st' => scost st' <= scost st + 1 + 2 * D * wlen (sw st) + Sb /\
+                       salloc st' <= salloc st + 2 * D * wlen (sw st) + Sb
+       | _ => True
+       end) ->
+    forall n st, wlen (sw st) <= K -> wfw (sw st) ->
+      scost st + 2 * D * wlen (sw st) <= C0 -> salloc st + 2 * D * wlen (sw st) <= A0 ->
+      cpost (C0 + D * Z.b2z cred + 1 + Sb) (A0 + D * Z.b2z cred + 1 + Sb) (Some (mkL P0 P0 cred))
+            (loop_iter guard body site l n st).
+  Proof.
+    intros guard body site l Sb C0 A0 cred HSb HSD HB. pose proof D_pos as HDp.
+    assert (OUT : forall st, wfw (sw st) -> scost st + 2 * D * wlen (sw st) <= C0 + 1 + Sb ->
+                  salloc st + 2 * D * wlen (sw st) <= A0 + 1 + Sb ->
+                  cpost (C0 + D * Z.b2z cred + 1 + Sb) (A0 + D * Z.b2z cred + 1 + Sb) (Some (mkL P0 P0 cred)) (FNormal st)).
+    { intros st Hw H1 H2. cbn [cpost]. exists (mkL P0 P0 cred), 0, 0. split; [reflexivity|].
+      unfold wfw in Hw. split; [|split].
+      - ginv_split; cbn [pmeans]; lia.
+      - unfold pot; cbn [lcred]. lia.
+      - unfold pot; cbn [lcred]. lia. }
+    induction n as [|n IH]; intros st HK Hw H1 H2; cbn [loop_iter]; [exact I|].
+    destruct (guard st) as [[|]|] eqn:Eg; [|apply OUT; auto; lia|exact I].
+    specialize (HB st HK Hw Eg). destruct (body st) as [st'|l' st'|ok st'|x|x]; try exact I.
+    - destruct HB as (Hw' & Hl & B1 & B2). apply IH; try assumption; lia.
+    - destruct HB as (Hw' & B1 & B2). destruct (l' =? l).
+      + apply OUT; auto; lia.
+      + cbn [cpost]. destruct cred; cbn [Z.b2z]; split; lia.
+    - destruct HB as (B1 & B2). cbn [cpost]. destruct cred; cbn [Z.b2z]; split; lia.
+  Qed.
+
+  Lemma cost_mut :
+    (forall s, stmt_claim s) /\
+    (forall b cur A L st len0 oA oL qc qa,
+       chkb ps cur b A = (oA, []) -> lchkb ps cur b A L = (oL, true) ->
+       sat len0 A (sw st) (senv st) -> wlen (sw st) <= K -> ginv L (sw st) (senv st) qc qa -> block_size b <= S ->
+       cpost (scost st + pot D L (sw st) qc + block_size b) (salloc st + pot D L (sw st) qa + block_size b) oL
+             (exb rd callf lfuel b st)) /\
+    (forall cs cur e A L st len0 oA oL qc qa v,
+       chkc ps cur e cs A = (oA, []) -> lchkc ps cur e cs A L = (oL, true) ->
+       sat len0 A (sw st) (senv st) -> wlen (sw st) <= K -> ginv L (sw st) (senv st) qc qa -> cases_size cs <= S ->
+       eval rd e (sw st) (senv st) = Some v ->
+       match exc rd callf lfuel cs v st with
+       | Some r => cpost (scost st + pot D L (sw st) qc + cases_size cs) (salloc st + pot D L (sw st) qa + cases_size cs) oL r
+       | None => True
+       end).
+  Proof.
+    destruct (sound_mut rd ps callf K lfuel Hcall_ok Hfuel) as (SNDs & SNDb & SNDc).
+    destruct sizes_nonneg as (SZs & SZb & SZc). pose proof D_pos as HDp.
+    apply ir_mutind.
+    - apply claim_SLet.
+    - apply claim_SEval.
+    - apply claim_SReslice.
+    - apply claim_SRet.
+    - apply claim_SRet.
+    - (* SIf *)
+      intros site c t IHt e IHe cur A L st len0 oA oL qc qa H HL St HK G HSz.
+      rewrite chk_SIf in H. cbv zeta in H.
+      remember (cond_fails A site c) as f0 eqn:F. symmetry in F.
+      destruct f0 as [|x0 f0']; [|cbn [app] in H; inversion H].
+      cbn [after_fails isnil app] in H.
+      destruct (chkb ps cur t (assume c true A)) as [o1 f1] eqn:E1.
+      destruct (chkb ps cur e (assume c false A)) as [o2 f2] eqn:E2.
+      cbn [fst snd] in H. injection H as HoA HF. apply app_eq_nil in HF. destruct HF as [HF1 HF2]. subst f1 f2.
+      rewrite lchk_SIf in HL. cbv zeta in HL.
+      destruct (lchkb ps cur t (assume c true A) L) as [l1 k1] eqn:M1.
+      destruct (lchkb ps cur e (assume c false A) L) as [l2 k2] eqn:M2.
+      cbn [fst snd] in HL. injection HL as HoL Hok. apply andb_true_iff in Hok. destruct Hok; subst k1 k2 oL.
+      rewrite ex_SIf. cbn [tick sw senv].
+      destruct (evalc rd c (sw st) (senv st)) as [[|]|] eqn:Ec; [| |exact I].
+      + apply cpost_join_l. cbn [stmt_size] in *. pose proof (SZb t). pose proof (SZb e).
+        eapply cpost_mono; [eapply (IHt cur _ L (tick st) len0 o1 l1 qc qa E1 M1)|..]; cbn [tick sw senv scost salloc]; try assumption; try lia.
+        apply (assume_sound rd); assumption.
+      + apply cpost_join_r. cbn [stmt_size] in *. pose proof (SZb t). pose proof (SZb e).
+        eapply cpost_mono; [eapply (IHe cur _ L (tick st) len0 o2 l2 qc qa E2 M2)|..]; cbn [tick sw senv scost salloc]; try assumption; try lia.
+        apply (assume_sound rd); assumption.
+    - (* SSwitch *)
+      intros site e cs IHc d IHd cur A L st len0 oA oL qc qa H HL St HK G HSz.
+      rewrite chk_SSwitch in H. cbv zeta in H.
+      destruct (chkc ps cur e cs A) as [o1 f1] eqn:E1.
+      destruct (chkb ps cur d A) as [o2 f2] eqn:E2.
+      cbn [fst snd] in H. injection H as HoA HF.
+      apply app_eq_nil in HF. destruct HF as [F HF]. apply app_eq_nil in HF. destruct HF as [HF1 HF2]. subst f1 f2.
+      rewrite lchk_SSwitch in HL. cbv zeta in HL.
+      destruct (lchkc ps cur e cs A L) as [l1 k1] eqn:M1.
+      destruct (lchkb ps cur d A L) as [l2 k2] eqn:M2.
+      cbn [fst snd] in HL. injection HL as HoL Hok. apply andb_true_iff in Hok. destruct Hok; subst k1 k2 oL.
+      rewrite ex_SSwitch. cbn [tick sw senv].
+      destruct (eval rd e (sw st) (senv st)) as [v|] eqn:Ev; [|exact I].
+      cbn [stmt_size] in *. pose proof (SZc cs). pose proof (SZb d).
+      pose proof (IHc cur e A L (tick st) len0 o1 l1 qc qa v E1 M1) as P. cbn [tick sw senv scost salloc] in P.
+      specialize (P St HK G ltac:(lia) Ev).
+      destruct (exc rd callf lfuel cs v (tick st)) as [r|].
+      + apply cpost_join_l. eapply cpost_mono; [exact P|lia|lia].
+      + apply cpost_join_r.
+        eapply cpost_mono; [eapply (IHd cur A L (tick st) len0 o2 l2 qc qa E2 M2)|..]; cbn [tick sw senv scost salloc]; try assumption; try lia.
+    - (* SLoop *)
+      intros site l c body IHb cur A L st len0 oA oL qc qa H HL St HK G HSz.
+      rewrite chk_SLoop in H. cbv zeta in H.
+      destruct (chkb ps (Some l) body (assume c true top)) as [o1 f1] eqn:E1. cbn [fst snd] in H.
+      injection H as HoA HF.
+      apply app_eq_nil in HF. destruct HF as [F HF]. apply app_eq_nil in HF. destruct HF as [HF1 F2]. subst f1.
+      rewrite lchk_SLoop in HL. cbv zeta in HL.
+      destruct (lchkb ps (Some l) body (assume c true top) L0) as [l1 k1] eqn:M1. cbn [fst snd] in HL.
+      injection HL as HoL Hok. subst oL.
+      apply andb_true_iff in Hok. destruct Hok as [Hok O5]. apply andb_true_iff in Hok. destruct Hok as [Hok O4].
+      apply andb_true_iff in Hok. destruct Hok as [Hok O3]. apply andb_true_iff in Hok. destruct Hok as [O1 O2]. subst k1.
+      destruct G as (G1 & G2 & G3 & G4).
+      pose proof (isP0_means _ _ _ O2 G3) as Z1. pose proof (isP0_means _ _ _ O3 G4) as Z2. subst qc qa.
+      rewrite ex_SLoop. cbn [stmt_size] in *. pose proof (SZb body) as HSb.
+      pose proof St as (Hw & _).
+      eapply cpost_mono;
+        [eapply (loop_cost _ _ site l (block_size body) (scost st + 1 + 2 * D * wlen (sw st)) (salloc st + 2 * D * wlen (sw st)) (lcred L))|..].
+      + exact HSb.
+      + lia.
+      + intros st' HK' Hw' Eg.
+        assert (St' : sat (wlen (sw st')) (assume c true top) (sw st') (senv st')).
+        { apply (assume_sound rd); [|exact Eg]. apply sat_top; [assumption|lia]. }
+        pose proof (SNDb body (Some l) _ (tick st') (wlen (sw st')) o1 E1 St' HK') as PS.
+        pose proof (IHb (Some l) _ L0 (tick st') (wlen (sw st')) o1 l1 0 0 E1 M1 St' HK') as PC.
+        cbn [tick sw senv scost salloc] in PS, PC.
+        assert (G0 : ginv L0 (sw st') (senv st') 0 0).
+        { unfold wfw in Hw'. unfold L0. ginv_split; cbn [pmeans]; lia. }
+        specialize (PC G0 ltac:(lia)).
+        destruct (exb rd callf lfuel body (tick st')) as [s2|l2 s2|ok s2|x|x]; cbn [post cpost] in PS, PC; try exact I.
+        * destruct PS as (A1 & EA & (Hw2 & _) & Hl2).
+          destruct PC as (Lb & q1 & q2 & EL & (GG1 & GG2 & GG3 & GG4) & C1 & C2). subst l1.
+          apply andb_true_iff in O5. destruct O5 as [O5 O8]. apply andb_true_iff in O5. destruct O5 as [O6 O7].
+          pose proof (isP0_means _ _ _ O6 GG3). pose proof (isP0_means _ _ _ O7 GG4). subst q1 q2.
+          unfold pot in C1, C2. rewrite O8 in C1, C2. unfold L0 in C1, C2. cbn [lcred Z.b2z] in C1, C2.
+          split; [assumption|]. split; [lia|]. split; lia.
+        * destruct PS as (_ & Hw2 & _). destruct PC as (C1 & C2).
+          unfold pot, L0 in C1, C2. cbn [lcred Z.b2z] in C1, C2. split; [assumption|]. split; lia.
+        * destruct PC as (C1 & C2). unfold pot, L0 in C1, C2. cbn [lcred Z.b2z] in C1, C2. split; lia.
+      + cbn [tick sw]. exact HK.
+      + cbn [tick sw]. exact Hw.
+      + cbn [tick sw scost]. lia.
+      + cbn [tick sw salloc]. lia.
+      + unfold pot. lia.
+      + unfold pot. lia.
+    - apply claim_SBreak.
+    - apply claim_SCall.
+    - apply claim_SAlloc.
+    - apply claim_SAllocObj.
+    - apply claim_SCopy.
+    - apply claim_SCopyLoop.
+    - apply claim_SStr.
+    - (* SWrite *) intros site cur A L st len0 oA oL qc qa H. cbn [chk] in H. inversion H.
+    - (* SUnknown *) intros site cur A L st len0 oA oL qc qa H. cbn [chk] in H. inversion H.
+    - (* BNil *)
+      intros cur A L st len0 oA oL qc qa H HL St HK G HSz. cbn [lchkb] in HL. injection HL as HoL. subst oL.
+      cbn [exb cpost block_size]. exists L, qc, qa. split; [reflexivity|]. split; [exact G|]. split; lia.
+    - (* BCons *)
+      intros s IHs r IHr cur A L st len0 oA oL qc qa H HL St HK G HSz.
+      rewrite chkb_BCons in H. cbv zeta in H.
+      destruct (chk ps cur s A) as [o1 f1] eqn:E1. cbn [fst snd] in H.
+      rewrite lchkb_BCons in HL. cbv zeta in HL. rewrite E1 in HL. cbn [fst] in HL.
+      destruct (lchk ps cur s A L) as [l1 k1] eqn:M1. cbn [fst snd] in HL.
+      rewrite exb_BCons. cbn [block_size] in *. pose proof (SZs s). pose proof (SZb r).
+      destruct o1 as [A1|].
+      + destruct (chkb ps cur r A1) as [o2 f2] eqn:E2. cbn [fst snd] in H. injection H as HoA HF.
+        apply app_eq_nil in HF. destruct HF as [HF1 HF2]. subst f1 f2.
+        pose proof (SNDs s cur A (tick st) len0 (Some A1) E1 St HK) as PS. cbn [tick sw senv] in PS.
+        destruct l1 as [L1|].
+        * destruct (lchkb ps cur r A1 L1) as [l2 k2] eqn:M2. cbn [fst snd] in HL. injection HL as HoL Hok.
+          apply andb_true_iff in Hok. destruct Hok; subst k1 k2 oL.
+          pose proof (IHs cur A L st len0 (Some A1) (Some L1) qc qa E1 M1 St HK G ltac:(lia)) as PC.
+          destruct (ex rd callf lfuel s (tick st)) as [s2|l2' s2|ok s2|x|x]; cbn [post cpost] in PS, PC; try exact I.
+          -- destruct PS as (A' & EA & St2 & Hl2). inversion EA; subst A'.
+             destruct PC as (L' & q1 & q2 & EL & GG & C1 & C2). inversion EL; subst L'.
+             eapply cpost_mono; [eapply (IHr cur A1 L1 s2 len0 o2 l2 q1 q2 E2 M2 St2)|..]; try assumption; try lia.
+          -- cbn [cpost]. lia.
+          -- cbn [cpost]. lia.
+        * injection HL as HoL Hok. subst k1 oL.
+          pose proof (IHs cur A L st len0 (Some A1) None qc qa E1 M1 St HK G ltac:(lia)) as PC.
+          destruct (ex rd callf lfuel s (tick st)) as [s2|l2' s2|ok s2|x|x]; cbn [post cpost] in PS, PC; try exact I.
+          -- destruct PC as (L' & q1 & q2 & EL & _). discriminate.
+          -- cbn [cpost]. lia.
+          -- cbn [cpost]. lia.
+      + injection H as HoA HF. subst f1. injection HL as HoL Hok. subst k1 oL.
+        pose proof (SNDs s cur A (tick st) len0 None E1 St HK) as PS.
+        pose proof (IHs cur A L st len0 None l1 qc qa E1 M1 St HK G ltac:(lia)) as PC.
+        destruct (ex rd callf lfuel s (tick st)) as [s2|l2' s2|ok s2|x|x]; cbn [post cpost] in PS, PC; try exact I.
+        * destruct PS as (A' & EA & _). discriminate.
+        * cbn [cpost]. lia.
+        * cbn [cpost]. lia.
+    - (* CNil *) intros; cbn [exc]; exact I.
+    - (* CCons *)
+      intros u b IHb r IHr cur e A L st len0 oA oL qc qa v H HL St HK G HSz Ev.
+      rewrite chkc_CCons in H. cbv zeta in H.
+      destruct (chkb ps cur b (learn_case A e u)) as [o1 f1] eqn:E1.
+      destruct (chkc ps cur e r A) as [o2 f2] eqn:E2. cbn [fst snd] in H. injection H as HoA HF.
+      apply app_eq_nil in HF. destruct HF as [HF1 HF2]. subst f1 f2.
+      rewrite lchkc_CCons in HL. cbv zeta in HL.
+      destruct (lchkb ps cur b (learn_case A e u) L) as [l1 k1] eqn:M1.
+      destruct (lchkc ps cur e r A L) as [l2 k2] eqn:M2.
+      cbn [fst snd] in HL. injection HL as HoL Hok. apply andb_true_iff in Hok. destruct Hok; subst k1 k2 oL.
+      rewrite exc_CCons. cbn [cases_size] in *. pose proof (SZb b). pose proof (SZc r).
+      destruct (Z.eqb_spec v u).
+      + subst. apply cpost_join_l.
+        eapply cpost_mono; [eapply (IHb cur _ L st len0 o1 l1 qc qa E1 M1)|..]; try assumption; try lia.
+        apply (learn_case_sound rd); assumption.
+      + pose proof (IHr cur e A L st len0 o2 l2 qc qa v E2 M2 St HK G ltac:(lia) Ev) as P.
+        destruct (exc rd callf lfuel r v st); [|exact I].
+        apply cpost_join_r. eapply cpost_mono; [exact P|lia|lia].
+  Qed.
+End Amortised.
+
+(* ------------------------------------------------------------------ whole programs *)
+Lemma size_nonneg : forall ps, 0 <= size ps.
+Proof. induction ps as [|[f b] r IH]; simpl; lia. Qed.
+
+Lemma size_lookup : forall ps f b, lookup ps f = Some b -> block_size b <= size ps.
+Proof.
+  induction ps as [|[g c] r IH]; simpl; intros f b H; [discriminate|].
+  destruct (Z.eqb_spec f g).
+  - inversion H; subst. lia.
+  - specialize (IH f b H). lia.
+Qed.
+
+Lemma all_linear_safe : forall ps, all_linear ps = true -> all_safe ps = true.
+Proof. intros ps H. unfold all_linear in H. apply andb_true_iff in H. tauto. Qed.
+
+Lemma all_linear_lookup : forall ps f b, all_linear ps = true -> lookup ps f = Some b -> linear_prog ps b = true.
+Proof.
+  intros ps f b H L. unfold all_linear in H. apply andb_true_iff in H. destruct H as [_ H].
+  rewrite forallb_forall in H. apply (H (f, b)). eapply lookup_in; eauto.
+Qed.
+
+Theorem all_linear_run_bound : forall rd ps, all_linear ps = true ->
+  forall fuel f w c a, known_fn ps f = true -> wfw w -> Z.of_nat fuel > wlen w ->
+    match run rd ps fuel f w c a with
+    | FRet _ st => scost st <= c + coef ps * wlen w + size ps /\ salloc st <= a + coef ps * wlen w + size ps
+    | _ => False
+    end.
+Proof.
+  intros rd ps HL. pose proof (all_linear_safe ps HL) as HS. pose proof (size_nonneg ps) as HSz.
+  induction fuel as [|k IH]; intros f w c a Hf Hw Hn.
+  - unfold wfw in Hw. lia.
+  - cbn [run]. unfold known_fn in Hf. destruct (lookup ps f) as [b|] eqn:L; [|discriminate].
+    pose proof (all_safe_lookup ps f b HS L) as SP. unfold safe_prog in SP.
+    apply andb_true_iff in SP. destruct SP as [SP _].
+    unfold unsafe_sites in SP. destruct (chkb ps None b top) as [oA fs] eqn:E. cbn [snd] in SP.
+    destruct fs; [|discriminate].
+    pose proof (all_linear_lookup ps f b HL L) as LP. unfold linear_prog in LP.
+    destruct (lchkb ps None b top L0) as [oL k1] eqn:M. cbn [snd] in LP. subst k1.
+    assert (Hcall : forall f w c a, known_fn ps f = true -> wfw w -> wlen w < Z.of_nat k ->
+              match run rd ps k f w c a with
+              | FRet _ st' => scost st' <= c + 2 * (size ps + 1) * wlen w + size ps /\
+                              salloc st' <= a + 2 * (size ps + 1) * wlen w + size ps
+              | _ => False
+              end).
+    { intros f' w' c' a' H1 H2 H3. specialize (IH f' w' c' a' H1 H2 ltac:(lia)). unfold coef in IH. exact IH. }
+    assert (Hfuel : Z.of_nat k < Z.of_nat (S k)) by lia.
+    destruct (cost_mut rd ps (run rd ps k) (Z.of_nat k) (S k) (size ps) (size ps + 1) HSz eq_refl Hcall Hfuel) as (_ & CB & _).
+    destruct (sound_mut rd ps (run rd ps k) (Z.of_nat k) (S k)
+                (Hcall_ok ps (run rd ps k) (Z.of_nat k) (size ps) (size ps + 1) Hcall) Hfuel) as (_ & SB & _).
+    pose proof (sat_top w nil (wlen w) Hw ltac:(lia)) as St.
+    specialize (SB b None top (mkSt w nil c a) (wlen w) oA E St ltac:(cbn [sw]; lia)).
+    assert (G : ginv L0 w nil 0 0).
+    { unfold wfw in Hw. unfold ginv, L0; cbn [lpc lpa pmeans]. repeat split; lia. }
+    specialize (CB b None top L0 (mkSt w nil c a) (wlen w) oA oL 0 0 E M St ltac:(cbn [sw]; lia) G (size_lookup ps f b L)).
+    cbn [sw senv scost salloc] in SB, CB. unfold pot, L0 in CB. cbn [lcred Z.b2z] in CB.
+    pose proof (size_lookup ps f b L) as Hb. unfold coef.
+    destruct (exb rd (run rd ps k) (S k) b (mkSt w nil c a)) as [st'|l' st'|ok st'|s|s]; cbn [post cpost] in SB, CB; try contradiction.
+    + destruct CB as (L' & qc & qa & _ & (G1 & G2 & _) & C1 & C2). unfold pot in C1, C2.
+      assert (0 <= (size ps + 1) * (2 * wlen (sw st') - qc)) by nia.
+      assert (0 <= (size ps + 1) * (2 * wlen (sw st') - qa)) by nia.
+      assert (0 <= (size ps + 1) * Z.b2z (lcred L')) by (destruct (lcred L'); simpl; lia).
+      split; lia.
+    + destruct SB as (SB & _). discriminate.
+    + destruct CB as (C1 & C2). split; lia.
+Qed.
+
+(* the statement in the shape of the property: every decoder, every input, every window, every fuel > len *)
+Definition decoders_linear (ps : programs) : Prop :=
+  forall f body, lookup ps f = Some body ->
+  forall (rd : Z -> Z) (w : window) (fuel : nat) (c a : Z),
+    0 <= wlen w <= wcap w -> Z.of_nat fuel > wlen w ->
+    exists ok st, run rd ps fuel f w c a = FRet ok st
+                  /\ scost st - c <= coef ps * wlen w + size ps
+                  /\ salloc st - a <= coef ps * wlen w + size ps.
+
+Theorem linear_sound : forall ps, all_linear ps = true -> decoders_linear ps.
+Proof.
+  intros ps HL f body L rd w fuel c a Hw Hn.
+  assert (Hf : known_fn ps f = true) by (unfold known_fn; now rewrite L).
+  pose proof (all_linear_run_bound rd ps HL fuel f w c a Hf Hw Hn) as R.
+  destruct (run rd ps fuel f w c a) as [st|l st|ok st|s|s]; try contradiction.
+  exists ok, st. split; [reflexivity|]. lia.
+Qed.
